@@ -157,7 +157,12 @@ Returns:
 */
 func (ego *object) isEqual(another any) bool {
 	obj, ok := another.(*object)
-	if !ok || ego.Ego().Count() != obj.Count() {
+	if !ok {
+		// Derived structure (the object is embedded in it), the comparison is made from its side
+		derived, ok := another.(Object)
+		return ok && derived.isEqual(ego)
+	}
+	if ego.Ego().Count() != obj.Count() {
 		return false
 	}
 	for k := range ego.val {
